@@ -45,10 +45,14 @@ try:
     shutil.copyfile(demo, os.path.join(SCR, "tests", "seeded_demo.rs"))
     # 1. demo passes on the unchanged tree
     REL = ["--release"] if os.environ.get("MQV_CONFIRM_RELEASE") else []
-    rc, out = sh(["cargo", "test", "--offline"] + REL + ["--test", "seeded_demo"], cwd=SCR)
+    DEMO = ["cargo", "test", "--offline"] + REL
+    if os.environ.get("MQV_CONFIRM_MIRI"):
+        # demonstration only observable under the undefined-behaviour interpreter
+        DEMO = ["cargo", "+nightly", "miri", "test", "--offline"]
+    rc, out = sh(DEMO + ["--test", "seeded_demo"], cwd=SCR)
     r = result(out)
     ok_before = rc == 0 and r and all(x[0] == "ok" for x in r)
-    ran.append({"cmd": "cargo test --offline %s--test seeded_demo (unchanged tree)" % ("--release " if os.environ.get("MQV_CONFIRM_RELEASE") else ""), "exit": rc, "result": r})
+    ran.append({"cmd": " ".join(DEMO) + " --test seeded_demo (unchanged tree)", "exit": rc, "result": r})
     # 2. apply the change: compiles, 73 lib tests pass
     rc, out = sh(["git", "apply", patch], cwd=SCR)
     assert rc == 0, "patch does not apply: " + out
@@ -57,10 +61,10 @@ try:
     ok_lib = rc == 0 and r and r[0][0] == "ok" and r[0][1] == "73"
     ran.append({"cmd": "cargo test --offline --lib (with the change)", "exit": rc, "result": r})
     # 3. demo fails with the change
-    rc, out = sh(["cargo", "test", "--offline"] + REL + ["--test", "seeded_demo"], cwd=SCR)
+    rc, out = sh(DEMO + ["--test", "seeded_demo"], cwd=SCR)
     r = result(out)
     fails_after = rc != 0
-    ran.append({"cmd": "cargo test --offline %s--test seeded_demo (with the change)" % ("--release " if os.environ.get("MQV_CONFIRM_RELEASE") else ""), "exit": rc, "result": r, "tail": out[-600:]})
+    ran.append({"cmd": " ".join(DEMO) + " --test seeded_demo (with the change)", "exit": rc, "result": r, "tail": out[-600:]})
     print("demo passes unchanged:", ok_before, "| lib tests with change:", ok_lib, "| demo fails with change:", fails_after)
     if ok_before and ok_lib and fails_after:
         os.makedirs(DEST, exist_ok=True)
